@@ -536,6 +536,10 @@ def correspondence(ctx):
         rr, rc = rng.random() < 0.6, rng.random() < 0.6
         fac = fn == "lu" and rng.random() < 0.4
         cplx_rhs = rng.random() < 0.4
+        # a list may mix real and complex entries (seed C15-a: dtype taken from the first entry only)
+        mixed_rhs = cplx_rhs and rng.random() < 0.5
+        def blk_cplx(i):
+            return cplx_rhs and (not mixed_rhs or (i > 0 and (i == 1 or rng.random() < 0.5)))
         cplx_x = rng.random() < 0.4
         all_spaces = list(env.spaces[sysm.gname].values())
         req = _Req(env, sysm.gname)
@@ -544,11 +548,11 @@ def correspondence(ctx):
         kinds = []
         if fn == "mul":
             fs = []
-            for d in sysm.doms:
+            for i_, d in enumerate(sysm.doms):
                 sp = sysm.space(d)
                 if misuse and rng.random() < 0.5:
                     sp = rng.choice(all_spaces)
-                f, k = _random_gf(env, rng, sp, sp, cplx_rhs, all_spaces, True)
+                f, k = _random_gf(env, rng, sp, sp, blk_cplx(i_), all_spaces, True)
                 fs.append(f)
                 kinds.append(k)
             if misuse and sysm.blocked and rng.random() < 0.5:
@@ -561,7 +565,7 @@ def correspondence(ctx):
                 sp = sysm.space(r)
                 if misuse and rng.random() < 0.5:
                     sp = rng.choice(all_spaces)
-                f, k = _random_gf(env, rng, sp, sysm.space(sysm.duals[i]), cplx_rhs, all_spaces, False)
+                f, k = _random_gf(env, rng, sp, sysm.space(sysm.duals[i]), blk_cplx(i), all_spaces, False)
                 bs.append(f)
                 kinds.append(k)
             if strong and not (all(env.inv_ok(sysm.space(r_), sysm.space(d_)) for r_, d_ in zip(sysm.rngs, sysm.duals))
@@ -975,6 +979,32 @@ def oracle(ctx, deep=False):
             except Exception as e:  # noqa
                 res.counterexample("lu-raises" if not slice_case else "blocked-projections-slice",
                                    f"lu raises {type(e).__name__}: {e} for {name}", system=sysm.structure())
+            # ---- a right-hand side LIST whose first entry is real and whose later entries are complex: the solution must
+            # solve the stated system W x = (projections of the list onto the duals)
+            if cplx and sysm.blocked and len(sysm.rngs) >= 2 and W.shape[0] == W.shape[1] and cond < 1e6:
+                try:
+                    bl = []
+                    for i_, (r_, d_) in enumerate(zip(sysm.rngs, sysm.duals)):
+                        nd = sysm.space(d_).global_dof_count
+                        bl.append(api.GridFunction(sysm.space(r_), projections=coeffs(nd, i_ > 0), dual_space=sysm.space(d_)))
+                    pbm = np.concatenate([g_.projections(sysm.space(d_)) for g_, d_ in zip(bl, sysm.duals)])
+                    xm = np.linalg.solve(W.astype(complex), pbm)
+                    res.case(("lu-mixed-list", name), nontrivial=True,
+                             sample=dict(kind="lu-mixed-real-complex-list", system=sysm.structure(), cond=cond))
+                    for label, solver in (("lu", lambda: api.lu(sysm.op, bl)),
+                                          ("lu+factors", lambda: api.lu(sysm.op, bl, lu_factor=api.compute_lu_factors(sysm.op))),
+                                          ("gmres", lambda: api.gmres(sysm.op, bl, tol=1e-12)[0])):
+                        sm = solver()
+                        em = float(np.max(np.abs(cvec(sm) - xm))) / max(1e-300, float(np.max(np.abs(xm))))
+                        lim = 1e-9 if label != "gmres" else 1e-12 * cond * 1e3
+                        if em > lim:
+                            res.counterexample("blocked-mixed-real-complex-rhs",
+                                               f"{label}(A, [real, complex, ...]) differs from the solution of the stated system by "
+                                               f"{em:.3e} (relative, cond {cond:.1f}) for {name}", system=sysm.structure(), error=em)
+                except Exception as e:  # noqa
+                    res.counterexample("blocked-mixed-real-complex-rhs",
+                                       f"solving with a mixed real/complex right-hand side list raises {type(e).__name__}: {e} ({name})",
+                                       system=sysm.structure())
             # ---- iterative
             n = W.shape[1]
             routines = ["gmres"] + (["cg"] if fam == "spd" and not sysm.blocked else [])
